@@ -507,6 +507,11 @@ class Canon:
                     elif isinstance(x, ast.Call) and isinstance(x.func, ast.Attribute) and x.func.attr in MUTATORS and isinstance(x.func.value, ast.Name):
                         mut.add(x.func.value.id)
                 for st in tree.body:
+                    # NAME = slice(a, b) with literal bounds: a named index range
+                    if isinstance(st, ast.Assign) and len(st.targets) == 1 and isinstance(st.targets[0], ast.Name) and isinstance(st.value, ast.Call) and isinstance(st.value.func, ast.Name) \
+                            and st.value.func.id == "slice" and not st.value.keywords and stores.get(st.targets[0].id, 0) == 1 \
+                            and all(isinstance(a_, ast.Constant) or (isinstance(a_, ast.UnaryOp) and isinstance(a_.operand, ast.Constant)) for a_ in st.value.args):
+                        dtabs[("slice", st.targets[0].id)] = st.value
                     if isinstance(st, ast.Assign) and len(st.targets) == 1 and isinstance(st.targets[0], ast.Name) and isinstance(st.value, ast.Dict) and 1 <= len(st.value.keys) <= 12 \
                             and stores.get(st.targets[0].id, 0) == 1 and st.targets[0].id not in mut \
                             and all(isinstance(k, ast.Constant) for k in st.value.keys) \
@@ -523,6 +528,15 @@ class Canon:
                     if isinstance(n.ctx, ast.Load) and isinstance(n.value, ast.Name) and n.value.id in dtabs and n.value.id not in bound and isinstance(n.slice, ast.Constant) \
                             and n.slice.value in dtabs[n.value.id]:
                         return ast.copy_location(copy.deepcopy(dtabs[n.value.id][n.slice.value]), n)
+                    # x[NAMED_RANGE] with NAMED_RANGE = slice(..) at module level
+                    def rng(e):
+                        if isinstance(e, ast.Name) and ("slice", e.id) in dtabs and e.id not in bound:
+                            return copy.deepcopy(dtabs[("slice", e.id)])
+                        return e
+                    if isinstance(n.slice, ast.Tuple):
+                        n.slice = ast.Tuple(elts=[rng(e) for e in n.slice.elts], ctx=ast.Load())
+                    else:
+                        n.slice = rng(n.slice)
                     return n
 
             node = D().visit(node)
@@ -1814,7 +1828,10 @@ class _Small(ast.NodeTransformer):
         # (bound unconditionally: the assignment is a statement of the function body itself, and the name is not a parameter)
         if e.id in params or len(defs) != 1 or not any(defs[0] is st_ for st_ in getattr(root, "body", [])):
             return None
-        if len(defs) != 1 or stores != 1 or not isinstance(defs[0].value, (ast.Tuple, ast.List)) or not all(isinstance(x, (ast.Name, ast.Constant)) for x in defs[0].value.elts):
+        def plain(x):
+            return isinstance(x, (ast.Name, ast.Constant)) or (isinstance(x, ast.Tuple) and all(isinstance(y, (ast.Name, ast.Constant)) for y in x.elts))
+
+        if len(defs) != 1 or stores != 1 or not isinstance(defs[0].value, (ast.Tuple, ast.List)) or not all(plain(x) for x in defs[0].value.elts):
             return None
         for x in ast.walk(root):
             if isinstance(x, ast.Subscript) and isinstance(x.ctx, (ast.Store, ast.Del)) and isinstance(x.value, ast.Name) and x.value.id == e.id:
@@ -1852,8 +1869,8 @@ class _Small(ast.NodeTransformer):
         *name* in every row may be the target of `+=` (an accumulator picked from a list); a body of the form `if c: ...; break` is the if / elif chain over the rows."""
         it, tg = n.iter, n.target
         elts = _Small._rows_of(it)
-        if elts is None or not (1 <= len(elts) <= 4) or n.orelse:
-            return None
+        if elts is None or not (1 <= len(elts) <= 8) or n.orelse or (len(elts) > 4 and sum(1 for b in n.body for x in ast.walk(b) if isinstance(x, ast.stmt)) > 3):
+            return None   # (long tables only with a short body)
         names = [tg.id] if isinstance(tg, ast.Name) else ([x.id for x in tg.elts] if isinstance(tg, ast.Tuple) and all(isinstance(x, ast.Name) for x in tg.elts) else None)
         if names is None:
             return None
@@ -1926,6 +1943,26 @@ class _Small(ast.NodeTransformer):
                     t_ = _SubstAll({p_.arg: a for p_, a in zip(la.args, n.args)})
                     t_._top = n
                     return self.visit(t_.visit(copy.deepcopy(n.func.body)))
+        # next((E(r) for r in <literal rows> if C(r)), D)  ->  E(r1) if C(r1) else (E(r2) if C(r2) else ... D)     (the first matching row of a literal table)
+        if isinstance(n.func, ast.Name) and n.func.id == "next" and len(n.args) == 2 and not n.keywords and isinstance(n.args[0], ast.GeneratorExp) and len(n.args[0].generators) == 1:
+            g = n.args[0].generators[0]
+            rows = self._rows_of(g.iter)
+            names = [g.target.id] if isinstance(g.target, ast.Name) else ([x.id for x in g.target.elts] if isinstance(g.target, ast.Tuple) and all(isinstance(x, ast.Name) for x in g.target.elts) else None)
+            if rows is not None and 1 <= len(rows) <= 8 and names is not None and len(g.ifs) == 1 and not g.is_async and _is_pure(g.ifs[0], reads_ok=True) and _is_pure(n.args[0].elt, reads_ok=True):
+                chain, ok_ = n.args[1], True
+                for e in reversed(rows):
+                    vals = [e] if isinstance(g.target, ast.Name) else (list(e.elts) if isinstance(e, ast.Tuple) and len(e.elts) == len(names) else None)
+                    if vals is None or not all(isinstance(v, (ast.Constant, ast.Name)) for v in vals):
+                        ok_ = False
+                        break
+                    t_ = _SubstAll(dict(zip(names, vals)))
+                    t_._top = n
+                    test = _FoldConst().visit(t_.visit(copy.deepcopy(g.ifs[0])))
+                    t2 = _SubstAll(dict(zip(names, vals)))
+                    t2._top = n
+                    chain = ast.IfExp(test=test, body=t2.visit(copy.deepcopy(n.args[0].elt)), orelse=chain)
+                if ok_:
+                    return ast.copy_location(chain, n)
         # tuple(E(v) for v in (a, b)) -> (E(a), E(b))     list(...) likewise
         if isinstance(n.func, ast.Name) and n.func.id in ("tuple", "list") and len(n.args) == 1 and not n.keywords and isinstance(n.args[0], (ast.GeneratorExp, ast.List)):
             elts = self._expanded(n.args[0]) if isinstance(n.args[0], ast.GeneratorExp) else list(n.args[0].elts)
